@@ -294,7 +294,15 @@ pub fn check_cli(case: &Case, w: usize) -> CheckResult {
         );
     }
     bb::install_simple(&env, &cfg, &beh);
-    let out = env.mr(&["run", "-c", "c0"]);
+    // a quarter of the cases with a slow compressor thread (guarded point, 120-250 ms per batch):
+    // the queue of batches is then still long when the last task of the group has finished
+    let slow_compressor = (case.rng_seed >> 40) % 4 == 0;
+    let points: Vec<(&str, String)> = if slow_compressor {
+        vec![("MRV_POINTS", format!("log.compressor.data=delay:{}", 120 + (case.rng_seed >> 44) % 130))]
+    } else {
+        vec![]
+    };
+    let out = env.mr_env(&["run", "-c", "c0"], &points, std::time::Duration::from_secs(300));
     let Some(doc) = out.json() else {
         return viol_obs("c08.cli.run.failed", "run of all-zero-exit commands failed".into(), out.brief());
     };
@@ -327,7 +335,7 @@ pub fn check_cli(case: &Case, w: usize) -> CheckResult {
         return viol(&format!("c08.cli.logshow.{}", kind), format!("log show: {}", msg));
     }
     let (nt, classes) = classify(&case.streams);
-    let mut info = CaseInfo::new(nt).inv(env.invocations);
+    let mut info = CaseInfo::new(nt).inv(env.invocations).class_if(slow_compressor, "slow-compressor-thread");
     for c in classes {
         info = info.class(c);
     }
